@@ -216,3 +216,36 @@ Check as4_path_roundtrip :
          as4_reconcile (map seg_down segs) (filter not_confed segs) = filter not_confed segs /\
          (forallb not_confed segs = true -> as4_reconcile (map seg_down segs) (filter not_confed segs) = segs)).
 Print Assumptions as4_path_roundtrip.
+
+(* (11) The encoder does not escape through its error result: a withdrawal whose entries encode
+   (no panic) to at most 4000 octets each is always encoded, on every session and in both build
+   profiles -- so by (4)/(6) none of its prefixes is dropped. *)
+Theorem unreach_never_refused :
+  forall (p : profile) (c : codec) (f : N) (es : list pnlri),
+    Forall (fun e => exists b, enc_pnlri p (addpath_for c f) true e = Ok b /\ len b <= 4000) es ->
+    exists frames, encode_to p c (MUnreach f es) = Ok frames.
+Proof. exact C04_unreach_never_refused. Qed.
+Check unreach_never_refused :
+  forall (p : profile) (c : codec) (f : N) (es : list pnlri),
+    Forall (fun e => exists b, enc_pnlri p (addpath_for c f) true e = Ok b /\ len b <= 4000) es ->
+    exists frames, encode_to p c (MUnreach f es) = Ok frames.
+Print Assumptions unreach_never_refused.
+
+(* (12) ... and an announcement whose attributes encode and leave 1300 octets of the negotiated
+   maximum, with a next hop of fewer than 40 octets and entries that encode to at most 1000
+   octets each, is always encoded: with (3)/(5), none of its prefixes is dropped.  (The code
+   before the fix: commit returned Ok with every prefix missing when nothing fitted.) *)
+Theorem reach_never_refused :
+  forall (p : profile) (c : codec) (f : N) (nh : option (list N)) (attrs : list attr) (es : list pnlri) (ab : list N) (acc : N),
+    enc_attrs (two_byte c) 0 attrs = Ok (ab, acc) -> len ab + 1300 <= max_len c ->
+    match nh with Some b => blen b < 40 | None => True end ->
+    Forall (fun e => exists b, enc_pnlri p (addpath_for c f) false e = Ok b /\ len b <= 1000) es ->
+    exists frames, encode_to p c (MReach f nh attrs es) = Ok frames.
+Proof. exact C04_reach_never_refused. Qed.
+Check reach_never_refused :
+  forall (p : profile) (c : codec) (f : N) (nh : option (list N)) (attrs : list attr) (es : list pnlri) (ab : list N) (acc : N),
+    enc_attrs (two_byte c) 0 attrs = Ok (ab, acc) -> len ab + 1300 <= max_len c ->
+    match nh with Some b => blen b < 40 | None => True end ->
+    Forall (fun e => exists b, enc_pnlri p (addpath_for c f) false e = Ok b /\ len b <= 1000) es ->
+    exists frames, encode_to p c (MReach f nh attrs es) = Ok frames.
+Print Assumptions reach_never_refused.
